@@ -24,6 +24,8 @@ func checkC15(c *Ctx, r *Report) {
 	c15Factory(c, r)
 	r.floor("R15.6", 1)
 	classifierPrefixOnly(c, r, "R15.6")
+	r.floor("R15.7", 10)
+	c15NoAlias(c, r, "R15.7")
 	// the per-packet step is the function of package server that calls the stream classifier
 	cls := c.fnMust("packet", "LooksLikeModbusTCP")
 	var step *ssa.Function
@@ -398,6 +400,37 @@ func c15Conn(c *Ctx, r *Report, h *ssa.Function) {
 	rep(len(write.Common().Args) == 1 && write.Common().Args[0] == toSend && recv.Block().Dominates(write.Block()), "the reply written is the one the assembler returned for this read", "write-arg", c.pos(write.Pos()))
 	// write happens before the next Read: the write block is not the read block and lies on the path back
 	rep(read.Block().Dominates(recv.Block()) && recv.Block().Dominates(write.Block()), "Read, assembler and Write happen in this order within one iteration", "order", c.pos(write.Pos()))
+	// no byte that was read is dropped: the loop goes on to the next Read without having called the
+	// assembler only when this Read delivered nothing (n == 0); it may also leave the loop (return)
+	if n != nil {
+		an := &Analysis{ctx: c, u: newUniverse(), top: h}
+		fr := an.newFrame(h, nil, nil)
+		fr.run(dnfTrue())
+		nv, okN := fr.val(n).(AInt)
+		hdrs := map[*ssa.BasicBlock]bool{}
+		for _, b := range h.Blocks {
+			for _, p := range b.Preds {
+				if isBackEdge(p, b) && b.Dominates(read.Block()) {
+					hdrs[b] = true
+				}
+			}
+		}
+		okDrop := okN && len(hdrs) > 0
+		where := c.pos(read.Pos())
+		for hdr := range hdrs {
+			for _, p := range hdr.Preds {
+				if !isBackEdge(p, hdr) || !read.Block().Dominates(p) || recv.Block().Dominates(p) {
+					continue
+				}
+				st := fr.edge[[2]int{p.Index, hdr.Index}]
+				if len(st) > 0 && !st.entails(atomLE(nv.a, affConst(0))) {
+					okDrop = false
+					where = c.pos(p.Instrs[len(p.Instrs)-1].Pos())
+				}
+			}
+		}
+		rep(okDrop, "the loop skips the assembler and reads again only when the Read delivered no bytes (n == 0): nothing that was read is dropped", "read-bytes-dropped", where)
+	}
 }
 
 // c15Factory: R15.5 — per-connection reassembly state: every assembler factory the server package
@@ -610,5 +643,57 @@ func classifierPrefixOnly(c *Ctx, r *Report, rule string) {
 			bad = "fewer than two distinct verdicts found"
 		}
 		r.fail(rule, id, "the classifier's verdict depends on how many bytes are buffered beyond the header (early next requests change the answer)", c.pos(cls.Pos()), bad, "verdict-depends-on-length")
+	}
+}
+
+// c15NoAlias: R15.7 — the server hands the request parsers bytes that live in the assembler's
+// reusable buffer; a parsed request that keeps a slice of its input is overwritten by the
+// next read. Every slice-typed field of the object a request parser returns must be backed by
+// memory the parser allocated itself.
+func c15NoAlias(c *Ctx, r *Report, rule string) {
+	for _, pi := range packetParsers(c, "packet", true) {
+		if !pi.tcp {
+			continue // the server only speaks TCP framing
+		}
+		r.instance(rule, 1)
+		id := fnID(pi.fn)
+		r.funcs[id] = true
+		an, fr := analyse(c, pi.fn)
+		_ = an
+		data, ok := fr.vals[pi.fn.Params[0]].(ASlice)
+		if !ok {
+			r.undecided(rule, id, "parser input is not a byte slice", c.pos(pi.fn.Pos()))
+			continue
+		}
+		bad := ""
+		for _, rs := range fr.returns {
+			p, isP := rs.vals[0].(APtr)
+			if !isP || p.obj == nil || len(rs.state) == 0 {
+				continue
+			}
+			val := fr.loadPath(p.obj, "", p.obj.typ, rs.instr)
+			var walk func(v AV, depth int)
+			walk = func(v AV, depth int) {
+				if depth > 3 {
+					return
+				}
+				switch x := v.(type) {
+				case ASlice:
+					if x.root == data.root && !x.isNil {
+						bad = "a slice field of the returned request is " + describeAV(x)
+					}
+				case AStructLit:
+					for _, f := range x.fields {
+						walk(f, depth+1)
+					}
+				}
+			}
+			walk(val, 0)
+		}
+		if bad == "" {
+			r.ok(rule, id, "the parsed request owns its payload (no slice field aliases the input buffer)", c.pos(pi.fn.Pos()), true)
+		} else {
+			r.fail(rule, id, "the parsed request keeps a slice of its input: the next read into the server's buffer changes a request that was already handed to the handler", c.pos(pi.fn.Pos()), bad, "request-aliases-input")
+		}
 	}
 }
